@@ -84,7 +84,7 @@ def build_property(ctx: Ctx, extra_targets: list[str] | None = None) -> dict:
         info["make_ok"] = ok
         if not ok:
             info["make_log"] = log[-4000:]
-        ob = coq.count_obligations(f"props/{pid}.v")
+        ob = coq.count_obligations(f"props/{pid}.v", log if not ok else "")
         info["obligations"] = ob
         if ok:
             pa_ok, pa = coq.print_assumptions(f"props/{pid}.v")
